@@ -307,7 +307,7 @@ func (c *c14Ctx) leaf() *c14Rule {
 		return t
 	default:
 		y := &c14Rule{Kind: "y", Sel: sel, Path: path}
-		for i, n := 0, r.Range(1, 3); i < n; i++ {
+		for i, n := 0, r.Range(1, 5); i < n; i++ {
 			y.Vals = append(y.Vals, []byte(r.Pick(c14TypeNames)))
 		}
 		if r.Chance(1, 40) {
@@ -459,6 +459,51 @@ func c14Small(w *bufio.Writer, r *hx.Rng, tier string) {
 		for i := 0; i < 1500; i++ {
 			a, b := leaves[r.Intn(len(leaves))], leaves[r.Intn(len(leaves))]
 			emit(&c14Rule{Kind: r.Pick([]string{"and", "or"}), Ops: []*c14Rule{a, b}})
+		}
+	}
+}
+
+// c14TypeLists: check_type with every value list of length 1..3 over the documented names AND
+// aliases, in every order, repetitions and alias repetitions included (the constructor
+// de-duplicates them through usedTypesMap), on every shape the field can have.
+func c14TypeLists(w *bufio.Writer) {
+	var lists [][][]byte
+	for _, a := range c14TypeNames {
+		lists = append(lists, [][]byte{[]byte(a)})
+		for _, b := range c14TypeNames {
+			lists = append(lists, [][]byte{[]byte(a), []byte(b)})
+			for _, c := range c14TypeNames {
+				lists = append(lists, [][]byte{[]byte(a), []byte(b), []byte(c)})
+			}
+		}
+	}
+	type shape struct {
+		sel string
+		ev  *jt.Tree
+	}
+	var shapes []shape
+	for _, v := range []*jt.Tree{nil, jt.N(), jt.Bo(true), jt.Nu("1"), jt.S("s"), jt.S(""), jt.A(), jt.O(),
+		jt.A(jt.N()), jt.O(jt.F("x", jt.N()))} {
+		if v == nil {
+			shapes = append(shapes, shape{"f", jt.O(jt.F("g", jt.N()))})
+		} else {
+			shapes = append(shapes, shape{"f", jt.O(jt.F("f", v))})
+		}
+	}
+	// nested: o.x null / absent under an object / under a scalar; array element
+	shapes = append(shapes,
+		shape{"o.x", jt.O(jt.F("o", jt.O(jt.F("x", jt.N()))))},
+		shape{"o.x", jt.O(jt.F("o", jt.O()))},
+		shape{"o.x", jt.O(jt.F("o", jt.S("x")))},
+		shape{"arr.0", jt.O(jt.F("arr", jt.A(jt.N(), jt.Nu("2"))))},
+		shape{"", jt.O()})
+	for _, sh := range shapes {
+		var path [][]byte
+		for _, x := range cfg.ParseFieldSelector(sh.sel) {
+			path = append(path, []byte(x))
+		}
+		for _, l := range lists {
+			c14Emit(w, c14DoIfLine(c14Epoch, &c14Rule{Kind: "y", Sel: sh.sel, Path: path, Vals: l}, sh.ev))
 		}
 	}
 }
@@ -660,14 +705,15 @@ func c14Escapes(w *bufio.Writer, r *hx.Rng, n int) {
 // ---------------------------------------------------------------- generator
 
 func genC14(w *bufio.Writer, r *hx.Rng, tier string) {
-	// hx.NewRng(seed) starts splitmix at seed*GOLDEN, so the stream of seed k+1 is the stream of
-	// seed k shifted by one draw; re-seed from a mixed output to get unrelated streams per seed
+	// re-seed from a mixed output (kept from the time hx.NewRng gave consecutive seeds shifted
+	// copies of one stream; harmless now that NewRng mixes the seed itself)
 	r = hx.NewRng(r.U64() ^ 0xC14C14C14)
 	nDoIf, nMatch := 40000, 15000
 	if tier == "thorough" {
 		nDoIf, nMatch = 450000, 120000
 	}
 	c14Small(w, r, tier)
+	c14TypeLists(w)
 	c14MatchSmall(w)
 	c14Escapes(w, r, nDoIf/8)
 	for i := 0; i < nDoIf; i++ {
